@@ -48,6 +48,12 @@ BUILT = {
  'C15': dict(technique='bounded exhaustive enumeration (E1 token sequences x every token boundary x 15 comment / white-space forms x annotation flag, one or two insertions) with a metamorphic oracle backed by the reference scanner/parser; every text replayed on the real library',
              text='every accepted or rejected E1 text (8 schemas) with one (two) comment(s) or white space inserted at every token boundary incl. both ends, annotation support off and on: return code and dump are those of the un-commented text; with support on a comment immediately in front of a scalar or braced non-empty list assignment is returned by the comment getter, appears in the print, and survives print -> parse.',
              note='trusted: reflex comment rules; only the positive annotation rule of the statement is asserted', ref='5/C15'),
+ 'C16': dict(technique='bounded exhaustive enumeration: (a) schema x workload run with the declarations alive and with them poisoned and freed, compared; (b) all interleavings of two operation streams (<= 2 ops quick, 3 thorough) on two contexts / two section instances, each side compared with its solo run; all on the real library under ASan',
+             text='(a) 101 schemas x workloads that create three instances of every (nested) multi section, and every E1 text up to N=4 (6), after the declaration arrays and all their strings were overwritten with 0xDD and freed: identical observations, ASan silent, declarations never written by the library (checksum); (b) every pair of operation streams (parse, set, append, annotate, register validation callback, add free-form key, add titled section, set print callback) in every interleaving on two contexts from the same declarations and on two instances of one multi section: each ends up exactly as in its solo run.',
+             note='trusted: ASan for accesses to freed declarations; "simple" options are excluded from (b) by design of the library', ref='5/C16'),
+ 'C17': dict(technique='bounded exhaustive enumeration (search-path sequences x file layouts x name forms x API x heap fill byte) against a reference resolver; every lookup replayed on the real library over a real fixture directory and a passwd seam',
+             text='every sequence of <= 3 search-path entries over {d1, d2, missing, d1 again, ~/d3, ~alice/d4} x 81 layouts of f.conf in the four directories (absent / regular file with a marker / directory) x 16 name forms (relative, sub-directory, absolute existing / missing / directory, ~, ~/x, ~user, ~user/x, ~nouser/x, empty, prefix-of-a-user) through cfg_searchpath, cfg_tilde_expand, cfg_parse and include(), with fresh heap memory pre-filled with 0x00 / 0xBE / 0xFF (MSan pass in the thorough tier): first directory in order of addition containing a regular file, absolute names bypass the list, directories and missing files never match, results fresh, independent of the fill byte.',
+             note='trusted: the passwd seam (getpwnam/getpwuid answered from a table), real stat() on fixture files under /verif/build/fx', ref='5/C17'),
 }
 
 checks = []
